@@ -1,8 +1,11 @@
 package rules
 
 import (
+	"fmt"
 	"go/token"
 	"go/types"
+	"sort"
+	"strings"
 
 	"golang.org/x/tools/go/ssa"
 
@@ -560,3 +563,99 @@ func shareFrom(c *core.Ctx, prop, rule string, match func(o *core.Obligation) bo
 }
 
 var sharingActive = map[string]bool{}
+
+// ---- small polynomials over named configuration values -------------------------------------------------------
+
+// poly maps a monomial (sorted atom names joined by "*", "" for the constant term) to its coefficient.
+type poly map[string]int64
+
+func polyMul(a, b poly) poly {
+	out := poly{}
+	for ma, ca := range a {
+		for mb, cb := range b {
+			var atoms []string
+			if ma != "" {
+				atoms = append(atoms, strings.Split(ma, "*")...)
+			}
+			if mb != "" {
+				atoms = append(atoms, strings.Split(mb, "*")...)
+			}
+			sort.Strings(atoms)
+			out[strings.Join(atoms, "*")] += ca * cb
+		}
+	}
+	return out
+}
+
+// polyOf evaluates an integer expression to a polynomial over the atoms named by atom(v) (through + - *,
+// conversions, constants and single-assignment cells); ok is false when anything else occurs.
+func polyOf(v ssa.Value, atom func(ssa.Value) string, depth int) (poly, bool) {
+	if depth > 12 {
+		return nil, false
+	}
+	if name := atom(v); name != "" {
+		return poly{name: 1}, true
+	}
+	switch x := v.(type) {
+	case *ssa.Const:
+		if c, ok := core.ConstInt(x); ok {
+			return poly{"": c}, true
+		}
+		return nil, false
+	case *ssa.Convert:
+		return polyOf(x.X, atom, depth+1)
+	case *ssa.ChangeType:
+		return polyOf(x.X, atom, depth+1)
+	case *ssa.BinOp:
+		a, ok1 := polyOf(x.X, atom, depth+1)
+		b, ok2 := polyOf(x.Y, atom, depth+1)
+		if !ok1 || !ok2 {
+			return nil, false
+		}
+		switch x.Op {
+		case token.ADD, token.SUB:
+			out := poly{}
+			for m, c := range a {
+				out[m] += c
+			}
+			for m, c := range b {
+				if x.Op == token.ADD {
+					out[m] += c
+				} else {
+					out[m] -= c
+				}
+			}
+			return out, true
+		case token.MUL:
+			return polyMul(a, b), true
+		}
+		return nil, false
+	case *ssa.UnOp:
+		if u := core.Unwrap(x); u != ssa.Value(x) {
+			return polyOf(u, atom, depth+1)
+		}
+	}
+	return nil, false
+}
+
+func (p poly) String() string {
+	var ms []string
+	for m := range p {
+		ms = append(ms, m)
+	}
+	sort.Strings(ms)
+	var parts []string
+	for _, m := range ms {
+		if p[m] == 0 {
+			continue
+		}
+		if m == "" {
+			parts = append(parts, fmt.Sprint(p[m]))
+		} else if p[m] == 1 {
+			parts = append(parts, m)
+		} else {
+			parts = append(parts, fmt.Sprintf("%d*%s", p[m], m))
+		}
+	}
+	return strings.Join(parts, " + ")
+}
